@@ -153,11 +153,21 @@ def replay(pyhf, backend, precision, chunk, seed, hypo_every=1, float_probes=0):
                 ok = False
         return ok
 
-    def run_calc(kind, base, q, qA, want_early=False):
-        """the calculator protocol on the real class; returns observed values"""
+    def run_calc(kind, base, q, qA, want_early=False, prev=None):
+        """the calculator protocol on the real class; returns observed values.  prev = (q, qA) of an earlier scan point the
+        SAME calculator object served first (Rescan of MC_Asymptotics): the complete protocol runs at mu = 0.5 with those
+        statistics, then the reported protocol at mu = 1.0 on the same object"""
+        calc = calcs.AsymptoticCalculator(data, model, test_stat=kind, calc_base_dist=base)
+        if prev is not None:
+            stub0 = _Stub(pyhf, prev[0], prev[1])
+            with _Patched(pyhf, stub0):
+                t0 = calc.teststatistic(0.5)
+                sb0, b0 = calc.distributions(0.5)
+                calc.pvalues(t0, sb0, b0)
+                calc.expected_pvalues(sb0, b0)
+            out["rescans"] = out.get("rescans", 0) + 1
         stub = _Stub(pyhf, q, qA)
         with _Patched(pyhf, stub):
-            calc = calcs.AsymptoticCalculator(data, model, test_stat=kind, calc_base_dist=base)
             early = None
             if want_early:
                 try:
@@ -213,7 +223,10 @@ def replay(pyhf, backend, precision, chunk, seed, hypo_every=1, float_probes=0):
         if case["branch2"] or case["cmp"] == 0 or base == "clipped_normal":
             out["nontrivial"] += 1
         try:
-            res = run_calc(kind, base, q, qA, want_early=(idx % 8 == 0))
+            prev = (float(frac(case["prev"][0]["q"])), float(frac(case["prev"][0]["qA"]))) if case.get("prev") else None
+            res = run_calc(kind, base, q, qA, want_early=(idx % 8 == 0 and prev is None), prev=prev)
+            if prev is not None:
+                tags = tags + ["rescan"]
         except BindingBroken:
             raise
         except Exception as e:  # noqa: BLE001
